@@ -16,6 +16,11 @@ OWNERS = {"K1.try_parse_format": ["C13", "C14"], "K1.extension_format": ["C14"],
           "K16": ["C04", "C17", "C02", "C03"], "K17": ["C11"], "K18": ["C12", "C11", "C09"], "K19": ["C17", "C04"], "K20": ["C11", "C12", "C04", "C01", "C03"], "K21": ["C09", "C02", "C12", "C03"]}
 
 
+# which native CLI scenario groups speak for which property (used when main() deviates from the model in a way owned elsewhere)
+GROUP_PROPS = {"g_flush": ["C15", "C16"], "g_exit1": ["C13", "C08"], "g_usage": ["C13"], "g_resolution": ["C14", "C03"], "g_extensions": ["C14"],
+               "g_format_names": ["C13", "C14"], "g_pipe": ["C16"], "g_depth": ["C18", "C04"]}
+
+
 def mir_dump(scratch, logdir):
     src = os.path.join(scratch, "e3-src")
     subprocess.run(["rsync", "-a", "--exclude", "/target", "--exclude", "/.git", XV.REPO.rstrip("/") + "/", src + "/"], check=True)
@@ -67,6 +72,15 @@ def run(prop, hs, scratch, logdir):
         if mine:
             # a recorded violation is replayed natively even if the run as a whole ended inconclusive
             confirm(prop, h, mine, r, scratch, src, logdir, binary)
+        elif others and h.name == "e3_main" and prop in sum(GROUP_PROPS.values(), []):
+            # main() deviates from the model in a way another property owns (e.g. a restructured input loop). The native
+            # scenario groups of THIS property decide whether the deviation also breaks it.
+            mygroups = [g for g, ps in GROUP_PROPS.items() if prop in ps]
+            confirm(prop, h, others, r, scratch, src, logdir, binary, only_groups=mygroups)
+            if r["verdict"] != "violated":
+                r["verdict"] = "discharged" if res.get("status") != "inconclusive" else "inconclusive"
+                r["detail"] = ("%s paths, %s z3 queries, %.1fs solver (violations owned by other properties: %s; this property's native scenarios behave as demanded)"
+                               % (res.get("paths"), res.get("queries"), res.get("solver_s") or 0, sorted(set(v[0] for v in others)))) if r["verdict"] == "discharged" else res.get("detail", "")
         elif res.get("status") == "inconclusive":
             r["verdict"], r["detail"] = "inconclusive", res.get("detail", "")
         else:
@@ -114,7 +128,7 @@ def build_binary(scratch, src, logdir):
     return b if p.returncode == 0 and os.path.exists(b) else None
 
 
-def confirm(prop, h, mine, r, scratch, src, logdir, binary):
+def confirm(prop, h, mine, r, scratch, src, logdir, binary, only_groups=None):
     import cli_battery
     if binary[0] is None:
         binary[0] = build_binary(scratch, src, logdir) or False
@@ -143,7 +157,22 @@ def confirm(prop, h, mine, r, scratch, src, logdir, binary):
             if key not in done_groups:
                 done_groups[key] = integration(scratch, src, logdir, "yaml_parser_native.rs") or integration(scratch, src, logdir, "stream_native.rs")
         fn = cli_battery.GROUPS.get(kind)
-        key = key if kind in STREAM + YAMLP else (fn.__name__ if fn else None)
+        if only_groups is not None:
+            # run exactly the scenario groups of the property under check, whatever the violation's own kind
+            key = "only:" + ",".join(only_groups)
+            if key not in done_groups:
+                allm = []
+                for gname in only_groups:
+                    gfn = getattr(cli_battery, gname)
+                    c = cli_battery.Cli(binary[0])
+                    try:
+                        allm += ["[%s] %s" % (gname, x) for x in gfn(c, wit)]
+                    finally:
+                        c.cleanup()
+                done_groups[key] = allm
+            fn = None
+        else:
+            key = key if kind in STREAM + YAMLP else (fn.__name__ if fn else None)
         if key in done_groups:
             mism = done_groups[key]
         else:
